@@ -7,6 +7,8 @@ import TickitModel.Lemmas.FlattenMain
 import TickitModel.Lemmas.FlattenFuelBound
 import TickitModel.Lemmas.FlattenCorr
 import TickitModel.Lemmas.FlattenCex
+import TickitModel.Lemmas.FlattenStimRun
+import TickitModel.Lemmas.FlattenStimCex
 
 namespace Tickit
 
@@ -95,5 +97,44 @@ theorem nesting_transparent_run_fuel (S : Static) (hS : S.Valid) (orc : Oracle) 
       ticks.map (·.time) = ticks'.map (·.time) ∧ ticks.map (·.real) = ticks'.map (·.real) ∧
       ∀ d, ObsEq (m2.sim.obsOf d) (m2'.sim.obsOf d) :=
   nesting_transparent_run S hS orc fuel rfuel (hS.resolveStable hr) t0 now sp steps nTicks m m2 tr ticks h h2
+
+/-- **C09, whole run with external stimuli (interrupts).**  For every history of callbacks and of
+interrupts raised on devices between ticks, the nested simulation and its flattening tick at the
+same times and every device makes the same observations, provided that
+
+* every stimulus names a device of the configuration (an interrupt of a system component has no
+  counterpart in the flattening);
+* every interrupted device either requests a callback at every update or never requests one
+  (`Oracle.InterruptSafe`): the flat master overwrites the device's own pending callback with the
+  interrupt stamp, the nested master overwrites the enclosing system's entry, which is restored
+  from the inner wakeups after the tick;
+* the stimuli are *timely* along the nested run (`stimsTimely`): the stamp of an interrupt is not
+  later than the earliest pending wakeup (it can be later only when the stimulus arrives at the
+  very real-time instant the next tick is due and the speed is above 1, or when a callback lies
+  in the past).
+
+Counterexamples for each hypothesis are checked in `Lemmas/FlattenStimCex.lean`. -/
+theorem nesting_transparent_run_stims (S : Static) (hS : S.Valid) (orc : Oracle) (fuel rfuel : Nat)
+    (hr : S.resolveFuel ≤ rfuel) (t0 : SimTime) (now : Int) (sp : Speed) (steps nTicks : Nat)
+    (stims : List Stim) (hdev : ∀ st ∈ stims, S.isDevice st.comp) (hsafe : orc.InterruptSafe stims)
+    (m m2 : MasterSt) (tr : TickRec) (ticks : List TickRec)
+    (h : masterInitial S orc fuel t0 now = .ok (m, tr))
+    (htimely : stimsTimely S orc fuel sp steps nTicks false m stims = true)
+    (h2 : masterRun S orc fuel sp steps nTicks m stims [tr] = .ok (m2, ticks)) :
+    ∃ fuel' m' tr' m2' ticks', masterInitial (S.flatten rfuel) orc fuel' t0 now = .ok (m', tr') ∧
+      masterRun (S.flatten rfuel) orc fuel' sp steps nTicks m' stims [tr'] = .ok (m2', ticks') ∧
+      ticks.map (·.time) = ticks'.map (·.time) ∧ ticks.map (·.real) = ticks'.map (·.real) ∧
+      ∀ d, ObsEq (m2.sim.obsOf d) (m2'.sim.obsOf d) := by
+  have hst := hS.resolveStable hr
+  obtain ⟨m', tr', h', _⟩ := nesting_transparent_initial_core S hS orc fuel rfuel hst t0 now m tr h
+  have hrank := (masterInitial_facts hS hst h).flatRank
+  have hc := corrP_initial hS hst hrank h h'
+  obtain ⟨c1, c2, c3, c4, c5⟩ := masterInitial_clock h
+  obtain ⟨c1', c2', c3', c4', c5'⟩ := masterInitial_clock h'
+  obtain ⟨m2', ticks', hrun, ht, hre, hobs⟩ := masterRun_corrP hS hst hrank (masterInitial_fuel hS hst h) sp
+    steps nTicks false m m' stims [tr] [tr'] [] t0 hc (fun _ => rfl)
+    ⟨c1.trans c1'.symm, c2.trans c2'.symm, c3.trans c3'.symm⟩ (by simp [c4, c4']) (by simp [c5, c5'])
+    hdev hsafe (by simp) htimely m2 ticks h2
+  exact ⟨1, m', tr', m2', ticks', h', hrun, ht, hre, hobs⟩
 
 end Tickit
